@@ -139,6 +139,10 @@ def concrete(t: T, env: dict, funcs: dict | None = None):
                 return _TYPES[n]
             if n in funcs:
                 return funcs[n]
+            if n.startswith("builtins.") and n.count(".") == 1:
+                import builtins as _b
+                if hasattr(_b, n[9:]):
+                    return getattr(_b, n[9:])   # a builtin used as a value (e.g. a table {"min": min})
             raise Unmodelled(n)
         if op == "call":
             f, args, kwargs = a
